@@ -349,6 +349,11 @@ fn paused_rt() -> tokio::runtime::Runtime {
 }
 
 pub fn run(cli: Cli) -> ! {
+    run_with(cli, &|_rep| {})
+}
+
+/// `extra` is run before the report is finished (netsim's C13 adds histories through the real Listener there).
+pub fn run_with(cli: Cli, extra: &dyn Fn(&Report)) -> ! {
     // the meter provider must be global before the limiter's instruments are first used
     let exporter = GaugeExporter;
     let reader = PeriodicReader::builder(exporter).with_interval(Duration::from_secs(3600)).build();
@@ -549,5 +554,6 @@ pub fn run(cli: Cli) -> ! {
     rep.assume("three keys; keys are symmetric in the limiter, so independence (I1) is evaluated for key A only");
     rep.assume("S1 (tracked keys) is read through the OpenTelemetry SDK gauge rate_limiter_size in a single-threaded pass (the gauge is process-global) and only at admitted attempts, the only points at which the limiter updates it");
     let _ = Arc::new(());
+    extra(&rep);
     rep.finish()
 }
